@@ -45,6 +45,32 @@ def built(sa, sb, kb):
         return 0
 
 
+_CVS = {}
+
+
+def assigned(sa, sb, ka):
+    """1 if  b.set(a value)  (not for tuple targets: their set() takes the elements) or  b.set(computed value of type a)
+    is accepted at build time"""
+    if isinstance(sa, (abi.ReferenceTypeSpec, abi.TransactionTypeSpec)) or isinstance(sb, (abi.ReferenceTypeSpec, abi.TransactionTypeSpec)):
+        return 0
+    if ka not in _CVS:
+        ns = {"pt": pt, "ann": sa.annotation_type()}
+        exec("def g(*, output: ann):\n    return output.decode(pt.Bytes(''))\n", ns)
+        _CVS[ka] = pt.ABIReturnSubroutine(ns["g"])
+    forms = [lambda: _CVS[ka]()]
+    if not isinstance(sb, abi.TupleTypeSpec):
+        forms.append(sa.new_instance)
+    for mk in forms:
+        try:
+            sb.new_instance().set(mk())
+            return 1
+        except abitypes.replay.PYTEAL_ERRORS:
+            pass
+        except (TypeError, AttributeError, ValueError):
+            pass
+    return 0
+
+
 def run_assign(entries, name):
     chunks = max(1, min(8, len(entries) // 1500))
     size = (len(entries) + chunks - 1) // chunks
@@ -94,7 +120,7 @@ def main():
         nreal += real
         same_class = type(specs[i]) is type(specs[j])
         b = built(specs[i], specs[j], j) if (real or same_class or rnd.random() < 0.05) else 0
-        entries.append({"a": types[i]["t"], "b": types[j]["t"], "real": real, "built": b})
+        entries.append({"a": types[i]["t"], "b": types[j]["t"], "real": real, "built": b, "asg": assigned(specs[i], specs[j], i)})
     verdicts, tres, errors = run_assign(entries, "c19")
     for r in tres:
         chk.add_tlc(r)
@@ -118,7 +144,7 @@ def main():
     chk.cov["evaluations"] = len(entries)
     chk.cov["distinct_nontrivial"] = nreal
     chk.cov["exhaustive"] = tier == "quick"
-    chk.notes.update({"types": len(types), "ordered_pairs": len(pairs), "assignable_pairs": nreal, "verdict_histogram": hist,
+    chk.notes.update({"types": len(types), "ordered_pairs": len(pairs), "assignable_pairs": nreal, "set_accepted_pairs": sum(e["asg"] for e in entries), "verdict_histogram": hist,
                       "same_layout_but_not_assignable (stricter, allowed)": strict,
                       "rule": "all ordered pairs over the 'assign' universe of ARC4Gen.tla (+ seeded pairs over level1 in thorough); "
                               "non-trivial = pair the implementation declares assignable"})
